@@ -85,11 +85,15 @@ def gen(ctx):
         for c, k, sizes in ((8, 4, [0, 1, 63, 64, 65, 200]), (10, 4, [0, 1, 63, 64]), (16, 8, [0, 1, 31, 32, 33]),
                             (25, 20, [0, 1, 12, 13]), (32, 12, [0, 1, 21, 22, 100])):
             for n in sizes:
-                if k == 4:
-                    items = ','.join(str(rng.below(1 << 32)) for _ in range(n)) or '-'
-                else:
-                    items = ','.join(bytes(rng.below(256) for _ in range(k)).hex() for _ in range(n)) or '-'
-                attr(c, [items], n * k)
+                # lists with repeated entries too (legal on the wire; must survive)
+                for rep in (False, True):
+                    if k == 4:
+                        pool = [str(rng.below(1 << 32)) for _ in range(3)]
+                        items = ','.join((rng.choice(pool) if rep and rng.chance(2, 3) else str(rng.below(1 << 32))) for _ in range(n)) or '-'
+                    else:
+                        pool = [bytes(rng.below(256) for _ in range(k)).hex() for _ in range(3)]
+                        items = ','.join((rng.choice(pool) if rep and rng.chance(2, 3) else bytes(rng.below(256) for _ in range(k)).hex()) for _ in range(n)) or '-'
+                    attr(c, [items], n * k)
         for c in (2, 17):
             for n in (0, 1, 2, 63, 64, 254, 255, 256, 257, 300, 511):
                 nseg = (1 if n % 255 else 0) + n // 255
